@@ -21,6 +21,9 @@ type Registry struct {
 	srcPkgName       string
 	imports          map[string]*Package
 	importQualifiers map[string]*Package
+	// reservedQualifiers are names no import may be given, because something
+	// else in the generated file (a type parameter) would hide the import.
+	reservedQualifiers map[string]struct{}
 	// inPackage specifies whether this registry is considered to be in the same
 	// package as the srcPkg. This is needed because of the way that Go package
 	// qualifiers work. For example, test files for a package are allowed to have
@@ -36,11 +39,12 @@ type Registry struct {
 // Registry.
 func NewRegistry(srcPkg *packages.Package, dstPkgPath string, inPackage bool) (*Registry, error) {
 	return &Registry{
-		dstPkgPath:       dstPkgPath,
-		srcPkg:           srcPkg,
-		imports:          make(map[string]*Package),
-		importQualifiers: make(map[string]*Package),
-		inPackage:        inPackage,
+		dstPkgPath:         dstPkgPath,
+		srcPkg:             srcPkg,
+		imports:            make(map[string]*Package),
+		importQualifiers:   make(map[string]*Package),
+		reservedQualifiers: make(map[string]struct{}),
+		inPackage:          inPackage,
 	}, nil
 }
 
@@ -109,6 +113,11 @@ func (r *Registry) AddImport(pkgName string, pkgPath string) *Package {
 	})
 }
 
+// ReserveQualifier keeps imports added from now on from being called name.
+func (r *Registry) ReserveQualifier(name string) {
+	r.reservedQualifiers[name] = struct{}{}
+}
+
 func (r *Registry) addImport(ctx context.Context, pkg TypesPackage) *Package {
 	path := pkg.Path()
 	log := zerolog.Ctx(ctx).With().
@@ -133,6 +142,10 @@ func (r *Registry) addImport(ctx context.Context, pkg TypesPackage) *Package {
 	var aliasSuggestion string = imprt.Qualifier()
 	for i := 0; ; i++ {
 		if _, conflict := r.importQualifiers[aliasSuggestion]; conflict {
+			aliasSuggestion = fmt.Sprintf("%s%d", imprt.Qualifier(), i)
+			continue
+		}
+		if _, reserved := r.reservedQualifiers[aliasSuggestion]; reserved {
 			aliasSuggestion = fmt.Sprintf("%s%d", imprt.Qualifier(), i)
 			continue
 		}
